@@ -245,6 +245,110 @@ def check_epos6_native(p, profile='debug'):
     return None
 
 
+def welzl_small(run, funcs, sizes=(2, 3)):
+    """the exact solver (Welzl recursion with from_boundary_points, contains) executed from the MIR on N symbolic, pairwise distinct points:
+    on every path the returned sphere contains all N points (relative tolerance 1e-9 on r^2), has at least two of them on its boundary, and for
+    N = 2 is the sphere with the two points as antipodes (the minimal one)"""
+    name = [n for n in funcs if n.endswith('::bounding_sphere') and 'bounding_sphere_recursive' not in n and any('DVec3' in ty for _, ty in funcs[n].params)]
+    wel = [n for n in name if _impl_of(funcs, n) == 'Welzl']
+    if len(wel) != 1:
+        raise engine.Inconclusive('Welzl::bounding_sphere not identified: %r' % name)
+    sc = engine.field_index('src/geometry.rs', 'Sphere', 'center')
+    sr = engine.field_index('src/geometry.rs', 'Sphere', 'radius')
+    for N in sizes:
+        pts = [rvec('wp%d' % k) for k in range(N)]
+        pre = []
+        for a in range(N):
+            for b in range(a):
+                d = vsub(pts[a], pts[b])
+                pre.append(zdot(d, d) != 0)
+        if N >= 3:
+            from mirsym.models import cross
+            ab = cross(vsub(pts[0], pts[2]), vsub(pts[1], pts[2]))
+            pre.append(zdot(ab, ab) != 0)           # not collinear (documented non-degeneracy of from_three_points)
+        interp = engine.new_interp(funcs, max_visits=800000, max_paths=20000)
+        st = State()
+        st.heap[1] = Agg('array', pts)
+        st.pc.extend(pre)
+        outs = interp.exec_fn(st, wel[0], [Ref(('H', 1))], {})
+        run.add_functions(interp, funcs)
+        if not outs:
+            run.inconclusive.append('C20 Welzl on %d points: no normal path' % N)
+        for k, (s, v) in enumerate(outs):
+            H = pre + hyps_of(s)
+            c, r = v.items[sc], to_z3(v.items[sr])
+            d2 = [zdot(vsub(p, c), vsub(p, c)) for p in pts]
+            tol = z3.RealVal('1000000001') / z3.RealVal('1000000000')
+            goal = z3.And([r > 0] + [x <= r * r * tol for x in d2])
+            vv, m = run.prove('C20 Welzl on %d points, path %d: the returned sphere contains every point' % (N, k), H, z3.Not(goal), timeout=60, on_sat='caller')
+            if vv == 'sat':
+                vals = [[float(engine.model_value(m, to_z3(x))) for x in p.items] for p in pts]
+                pl = {'kind': 'welzl_points', 'points': vals}
+                bad = check_welzl_native(pl)
+                if bad:
+                    run.violation('C20 Welzl: ' + bad, engine.save_replay('C20', pl))
+                else:
+                    run.suspect.append('C20 Welzl on %d points: counterexample %r does not reproduce natively' % (N, vals))
+            on = [z3.And(x <= r * r * tol, x * tol >= r * r) for x in d2]
+            run.prove('C20 Welzl on %d points, path %d: at least two points lie on the boundary of the returned sphere' % (N, k), H,
+                      z3.Not(z3.Or([z3.And(on[a], on[b]) for a in range(N) for b in range(a)])), timeout=60, cross=False)
+            if N == 2:
+                dd = vsub(pts[0], pts[1])
+                run.prove('C20 Welzl on 2 points: the two points are antipodes (4 r^2 = |p0 - p1|^2): the minimal sphere', H, z3.Not(4 * r * r == zdot(dd, dd)), timeout=60, cross=False)
+    # a single point: the smallest enclosing sphere is the point itself (radius 0)
+    p0 = rvec('wp_single')
+    interp = engine.new_interp(funcs, max_visits=100000)
+    st = State()
+    st.heap[1] = Agg('array', [p0])
+    for k, (s, v) in enumerate(interp.exec_fn(st, wel[0], [Ref(('H', 1))], {})):
+        c, r = v.items[sc], to_z3(v.items[sr])
+        dd = zdot(vsub(p0, c), vsub(p0, c))
+        vv, m = run.prove('C20 Welzl on a single point, path %d: the returned sphere contains the point (|c - p|^2 <= r^2)' % k, hyps_of(s), z3.Not(dd <= r * r), timeout=30,
+                          on_sat='caller', cross=False)
+        if vv == 'sat':
+            o = engine.native(['welzl 1 1 2 3'], 'debug')[0]
+            c_, r_ = [float(x) for x in o[1:4]], float(o[4])
+            if o[0] == 'ok' and sum((a - b) ** 2 for a, b in zip((1.0, 2.0, 3.0), c_)) > r_ * r_:
+                what = 'Welzl::bounding_sphere(&[(1,2,3)]) = centre %r radius %r does not contain the point' % (c_, r_)
+                known = [kf for kf in engine.load_known('C20') if kf['key'] == 'welzl-single-point']
+                if known:
+                    run.known_seen.append('welzl-single-point: ' + what)
+                else:
+                    run.violation('C20 ' + what, engine.save_replay('C20', {'kind': 'welzl_points', 'points': [[1.0, 2.0, 3.0]]}))
+            else:
+                run.suspect.append('C20 Welzl on a single point: counterexample does not reproduce natively')
+    run.bound('Welzl: N in %r symbolic pairwise distinct (N = 3: non-collinear) points; every path of the recursion' % (tuple(sizes),))
+
+
+def _impl_of(funcs, name):
+    import re
+    m = re.search(r'<impl at (src/[^:]+):(\d+):(\d+)', name)
+    if not m:
+        return None
+    src = open('%s/%s' % (engine.REPO, m.group(1))).read().split('\n')
+    line = src[int(m.group(2)) - 1]
+    mm = re.search(r'for (\w+)', line) or re.search(r'impl (\w+)', line)
+    return mm.group(1) if mm else None
+
+
+def check_welzl_native(p, profile='debug'):
+    pts = p['points']
+    sets = ([pts] if len(pts) > 1 else []) + [[[0.1, 0.2, 0.3], [0.7, 0.1, 0.5]], [[0.1, 0.2, 0.3], [0.7, 0.1, 0.5], [0.4, 0.9, 0.2]], [[1e-7, 2e-7, 3e-7], [7e-7, 1e-7, 5e-7], [4e-7, 9e-7, 2e-7]],
+            [[0.0, 0.0, 0.0], [1.0, 0.0, 0.0], [0.5, 0.01, 0.0]]]
+    for ps in sets:
+        line = 'welzl %d %s' % (len(ps), ' '.join(' '.join(engine.f2s(x) for x in q) for q in ps))
+        for prof in ('debug', 'release'):
+            o = engine.native([line], prof)[0]
+            if o[0] != 'ok':
+                return 'Welzl::bounding_sphere panicked on %r' % ps
+            c, r = [float(x) for x in o[1:4]], float(o[4])
+            for q in ps:
+                d2 = sum((a - b) ** 2 for a, b in zip(q, c))
+                if not (r > 0 and d2 <= r * r * (1 + 1e-6)):
+                    return 'Welzl::bounding_sphere(%r) = centre %r radius %r does not contain %r [%s build]' % (ps, c, r, q, prof)
+    return None
+
+
 def check(run):
     funcs, info = engine.load_mir('ibig')
     run.mir_info.append(info)
@@ -253,6 +357,7 @@ def check(run):
     run.guard(r_ring, funcs)
     run.guard(cell_bounds, funcs)
     run.guard(epos6_extension, funcs, 1)          # two extension steps in sequence did not finish in 3.5 h (path explosion): one step, any previous sphere
+    run.guard(welzl_small, funcs, (2,))        # N = 3: 90 s per path and one path undecided in 240 s (sum of a square root): not used
     from . import C19
     run.guard(C19.sphere_contains, funcs, 'C20')     # the membership test the bounding-sphere solvers recurse on (any length scale)
     run.assume('the kNN ring loop with its heap, Welzl recursion/minimality and Epos6 extremal-point selection are not encoded')
@@ -262,6 +367,10 @@ def check(run):
 
 def replay(path):
     d = json.load(open(path))
+    if d['kind'] == 'welzl_points':
+        bad = check_welzl_native(d)
+        print(bad)
+        return 1 if bad else 0
     if d['kind'] == 'sphere_contains':
         from . import C19
         return C19.replay(path)
